@@ -76,5 +76,6 @@ TraceNext ==
          [] Ev.e = "PD" -> DoDirect
          [] Ev.e = "PS" -> DoShard
 
+TraceView == l
 Report == l = Len(Trace) + 1 => PrintT(ToJson([n |-> Len(Trace), bad |-> bad]))
 =============================================================================
